@@ -1,0 +1,6 @@
+//go:build !verif
+
+package server
+
+// verifSkipConnectProbe is a hook of the verification harness (build tag "verif"); always false here.
+func verifSkipConnectProbe() bool { return false }
